@@ -355,6 +355,13 @@ def run(replay=None):
         return eid, sid
     events.extend(lex_events(rep, thorough, new_ids, byid))
     events.extend(lex_prop_events(rep, thorough, new_ids, byid))
+    import os
+    only = os.environ.get('VERIF_ONLY')
+    if only is not None:
+        # --replay: judge only the recorded text (exactly: white space is significant at this level) and its layout group
+        sids = {e['sid'] for e in events if byid[e['id']][0].replace(' [parsed again at the end of the run]', '').rstrip() == only.rstrip() or byid[e['id']][0] == only}
+        events = [e for e in events if e['sid'] in sids]
+        rep.count('replayed_events', len(events))
     # canaries: corrupted recordings that the trace spec must reject
     canaries = []
     for ev in events:
